@@ -290,6 +290,24 @@ def run(ctx):
                 if t["name"] == bid["who"]:
                     t["sched"] = "active"
         cases.append(c)
+    # a tasker that ran with a period below the tick (its due time lags behind the clock) gets a period above the tick
+    # by a bid: it catches up along its accumulated due times (t0 + sum of the periods in force) before it slows down
+    import random as _random
+    r2 = _random.Random(ctx.seed * 31 + 5)
+    for Pstr in TICKS:
+        Pf = Fraction(Pstr)
+        for p0 in ("0", str(float(Pf / 2))):
+            for mult in (2, 3, 8):
+                for who_self in (False, True):
+                    nt = ctx.pick(40, 80)
+                    bid = {"kind": "period", "ctl": "run", "who": "t0", "newp": str(float(mult * Pf)), "tick": r2.randint(3, 9)}
+                    if who_self:
+                        bid["self"] = True
+                    c = make_case(r2, Pstr, 2, nt, bid=bid, grid_periods=[p0, Pstr])
+                    for t in c["taskers"]:
+                        t["sched"] = "active"
+                    c["raised"] = True
+                    cases.append(c)
     nshards = 16
     jobs = [{"cases": cases[i::nshards]} for i in range(nshards)]
     ctx.shard(jobs, timeout=ctx.pick(120, 1500))
